@@ -2,7 +2,15 @@
 use serde_json::{json, Map, Value as J};
 use std::collections::{BTreeMap, BTreeSet};
 use std::path::PathBuf;
+use std::io::Write;
 use std::time::Instant;
+
+/// println! that does not panic when stdout has been closed
+macro_rules! out {
+    ($($arg:tt)*) => {{
+        let _ = writeln!(std::io::stdout(), $($arg)*);
+    }};
+}
 
 /// root of the verification tree (evidence, replays, known findings); `/verif` unless a
 /// background run points the harness at a snapshot
@@ -237,6 +245,8 @@ impl Report {
         let mut exit = 0;
 
         let replay_dir = PathBuf::from(format!("{}/replays/{}", verif_dir(), self.prop));
+        // replay files of earlier runs are stale
+        let _ = std::fs::remove_dir_all(&replay_dir);
         let mut reported = 0usize;
         let mut known_hits = Vec::new();
         let mut viol_list = Vec::new();
@@ -246,7 +256,7 @@ impl Report {
         for sig in sigs {
             let v = self.acc.violations.get(&sig).unwrap().clone();
             if let Some(desc) = known.lookup(self.prop, &v.sig) {
-                println!("KNOWN-FINDING: property={} key={} {}", self.prop, v.sig, desc);
+                out!("KNOWN-FINDING: property={} key={} {}", self.prop, v.sig, desc);
                 known_hits.push(json!({"key": v.sig, "what": v.what}));
                 continue;
             }
@@ -261,19 +271,19 @@ impl Report {
             });
             let _ = std::fs::write(&path, serde_json::to_string_pretty(&body).unwrap());
             if reported < 60 {
-                println!("VIOLATION property={} replay={}", self.prop, path.display());
-                println!("  {}", v.what);
+                out!("VIOLATION property={} replay={}", self.prop, path.display());
+                out!("  {}", v.what);
             }
             reported += 1;
             viol_list.push(json!({"signature": v.sig, "what": v.what, "replay": path.display().to_string()}));
             exit = 1;
         }
         if reported > 60 {
-            println!("... {} more violation signatures (see evidence file)", reported - 60);
+            out!("... {} more violation signatures (see evidence file)", reported - 60);
         }
         if !self.acc.machinery_errors.is_empty() {
             for m in &self.acc.machinery_errors {
-                println!("MACHINERY-ERROR property={} {}", self.prop, m);
+                out!("MACHINERY-ERROR property={} {}", self.prop, m);
             }
             if exit == 0 {
                 exit = 2;
@@ -282,7 +292,7 @@ impl Report {
         // vacuity guard
         let distinct_outcomes = self.acc.outcomes.len();
         if distinct_outcomes <= 1 && exit == 0 {
-            println!(
+            out!(
                 "MACHINERY-ERROR property={} vacuous run: {} distinct outcome classes observed",
                 self.prop, distinct_outcomes
             );
@@ -290,7 +300,7 @@ impl Report {
         }
         if self.states == 0 || self.transitions == 0 {
             if exit == 0 {
-                println!("MACHINERY-ERROR property={} nothing explored", self.prop);
+                out!("MACHINERY-ERROR property={} nothing explored", self.prop);
                 exit = 2;
             }
         }
@@ -350,12 +360,12 @@ impl Report {
         let _ = std::fs::create_dir_all(format!("{}/evidence", verif_dir()));
         let path = format!("{}/evidence/{}.json", verif_dir(), self.prop);
         if let Err(e) = std::fs::write(&path, serde_json::to_string_pretty(&ev).unwrap()) {
-            println!("MACHINERY-ERROR property={} cannot write evidence: {e}", self.prop);
+            out!("MACHINERY-ERROR property={} cannot write evidence: {e}", self.prop);
             if exit == 0 {
                 exit = 2;
             }
         }
-        println!(
+        out!(
             "{} {} states={} transitions={} executions={} outcome_classes={} exhaustive={} violations={} wall={:.1}s exit={}",
             self.prop,
             self.tier.name(),
